@@ -157,6 +157,9 @@ def build_class(mspec, events, clock=None, hw=None):
         if p['has_read']:
             def rd(self, _n=n):
                 events.append(('read', self.name, _n, None))
+                exc = hw.pop(('__fail__', self.name, _n, 'read'), None)
+                if exc is not None:
+                    raise exc          # injected one-shot driver fault
                 return hw[(self.name, _n)]
             rd.__name__ = 'read_' + n
             ns['read_' + n] = rd
